@@ -31,6 +31,8 @@ type Mode struct {
 	Weight   int
 	// Run overrides the config's RunOptions for programs of this mode (e.g. another stack configuration)
 	Run *luagen.RunOptions
+	// Gen, when set, replaces the feature-driven generator for this mode
+	Gen func(r *lib.Rand) []luagen.Stmt
 }
 
 type Config struct {
@@ -76,6 +78,9 @@ func gen(cfg *Config, seed uint64, idx int) ([]luagen.Stmt, Mode, *luagen.Gen) {
 	r := lib.NewRand(seed*1000003 + uint64(idx))
 	m := modeOf(cfg, r)
 	g := luagen.NewGen(r, m.Features)
+	if m.Gen != nil {
+		return m.Gen(r), m, g
+	}
 	return g.Program(), m, g
 }
 
@@ -108,7 +113,7 @@ func runOne(cfg *Config, w *lib.Writer, seed uint64, idx int) {
 		Input:      Input{Src: src, Seed: seed, Idx: idx, Mode: m.Name},
 		Observed:   out.Summary(),
 		Class:      m.Name,
-		Nontrivial: len(out.Trace) >= 5 || !out.Ok,
+		Nontrivial: len(out.Trace) >= 5 || !out.Ok || m.Gen != nil,
 		Coq:        coq,
 	}
 	if cfg.KF != nil {
